@@ -886,8 +886,9 @@ class FnTr:
             if len(targets) != 1 or value is None:
                 return None
             tgt = targets[0]
-            if isinstance(value, ast.Name) and value.id in self.env and self.env[value.id].typ.startswith(('Set ', 'DDict ')):
-                raise Unsupported(f'`{self.inst.qual}`: `{ast.unparse(s)}` aliases a mutable local')
+            for part in (value.elts if isinstance(value, ast.Tuple) else [value]):
+                if isinstance(part, ast.Name) and part.id in self.env and self.env[part.id].typ.startswith(('Set ', 'DDict ')):
+                    raise Unsupported(f'`{self.inst.qual}`: `{ast.unparse(s)}` aliases a mutable local')
             name, attr = self._mut_base(value)
             old = self.env.get(name) if name else None
             if old is not None and attr == 'pop' and old.typ.startswith('Set ') and isinstance(value.func.value, ast.Name):
